@@ -395,5 +395,75 @@ theorem multilinear_tensor_eval (evals pt : List F) (k : Nat) (hk : k ≤ pt.len
   conv_rhs => rw [← List.take_append_drop k pt, tensorVec_append]
   rw [dot_kron _ _ _ (by rw [hA, hB, hflat]), hA, hB]
 
+/-! ### the lengths of the vectors of `tensor` (what the length test of `check`, fix D23, looks at) -/
+
+/-- the univariate `tensor` always answers, with one entry of `a` per column and one of `b` per row -/
+theorem tensor_uni_lengths (z : F) (nCols nRows : Nat) (a b : List F)
+    (h : tensor (Point.uni z) nCols nRows = .ok (a, b)) : a.length = nCols ∧ b.length = nRows := by
+  simp only [tensor, tensorUni, Except.ok.injEq, Prod.mk.injEq] at h
+  obtain ⟨rfl, rfl⟩ := h
+  exact ⟨powers_length _ _ _, powers_length _ _ _⟩
+
+/-- the multilinear `tensor`, when it answers: `a` has `2^⌈log₂ n_cols⌉` entries and `b` has
+`2^(|pt| − ⌈log₂ n_cols⌉)`, whatever `n_rows` is -/
+theorem tensor_ml_lengths (pt : List F) (nCols nRows : Nat) (a b : List F)
+    (h : tensor (Point.ml pt) nCols nRows = .ok (a, b)) :
+    ceilLog2 nCols ≤ pt.length ∧ a.length = 2 ^ ceilLog2 nCols ∧
+      b.length = 2 ^ (pt.length - ceilLog2 nCols) := by
+  simp only [tensor, tensorML] at h
+  split at h
+  · rename_i hs
+    simp only [Except.ok.injEq, Prod.mk.injEq] at h
+    obtain ⟨rfl, rfl⟩ := h
+    refine ⟨hs, ?_, ?_⟩
+    · rw [tensorVec_length, List.length_take, Nat.min_eq_left hs]
+    · rw [tensorVec_length, List.length_drop]
+  · cases h
+
+/-- a multilinear point with `nv` coordinates fits exactly the power-of-two shapes
+`2^k` columns × `2^(nv − k)` rows -/
+theorem tensor_ml_lengths_fit (pt : List F) (k : Nat) (a b : List F)
+    (h : tensor (Point.ml pt) (2 ^ k) (2 ^ (pt.length - k)) = .ok (a, b)) :
+    a.length = 2 ^ k ∧ b.length = 2 ^ (pt.length - k) := by
+  obtain ⟨_, ha, hb⟩ := tensor_ml_lengths pt _ _ a b h
+  rw [ceilLog2_two_pow] at ha hb
+  exact ⟨ha, hb⟩
+
+/-- **The point has the number of coordinates the matrix width asks for**: whenever `tensor` answers,
+its `a` has one entry per column.  `open` never looks at `a`, `check` (fix D23) refuses unless it has
+`n_cols` entries — so this is what an answered `open` needs to be accepted.  Always true for a
+univariate point; for a multilinear point it says the width is a power of two (or the point too short
+for `tensor` to answer): `pointFits_ml_iff`. -/
+def PointFits (point : Point F) (nCols nRows : Nat) : Prop :=
+  ∀ a b, tensor point nCols nRows = .ok (a, b) → a.length = nCols
+
+theorem pointFits_uni (z : F) (nCols nRows : Nat) : PointFits (Point.uni z) nCols nRows :=
+  fun a b h => (tensor_uni_lengths z nCols nRows a b h).1
+
+theorem pointFits_ml_iff (pt : List F) (nCols nRows : Nat) :
+    PointFits (Point.ml pt) nCols nRows ↔ pt.length < ceilLog2 nCols ∨ 2 ^ ceilLog2 nCols = nCols := by
+  constructor
+  · intro h
+    by_cases hs : ceilLog2 nCols ≤ pt.length
+    · right
+      have := h (tensorVec (pt.take (ceilLog2 nCols))) (tensorVec (pt.drop (ceilLog2 nCols)))
+        (by simp [tensor, tensorML, hs])
+      rw [tensorVec_length, List.length_take, Nat.min_eq_left hs] at this
+      exact this
+    · left; omega
+  · rintro (h | h) a b hab
+    · obtain ⟨hs, _⟩ := tensor_ml_lengths pt nCols nRows a b hab
+      omega
+    · obtain ⟨_, ha, _⟩ := tensor_ml_lengths pt nCols nRows a b hab
+      rw [ha, h]
+
+/-- a power-of-two width (the multilinear schemes: `2^nv` evaluations in `2^(nv−k)` rows of `2^k`)
+fits every point -/
+theorem pointFits_of_pow2 (point : Point F) (nCols nRows : Nat) (h : 2 ^ ceilLog2 nCols = nCols) :
+    PointFits point nCols nRows := by
+  cases point with
+  | uni z => exact pointFits_uni z nCols nRows
+  | ml pt => exact (pointFits_ml_iff pt nCols nRows).2 (Or.inr h)
+
 end LinCode
 end PCV
